@@ -19,10 +19,11 @@ def G4 (s' : State) : Prop :=
     ((s'.rt = .consume ∨ s'.rt = .clear) → s'.cfg.drv = .iour) ∧
     (s'.pnot = true → s'.cfg.drv = .poll) ∧
     (∀ w, (s'.wk w).pc = .cas → s'.cfg.drv = .poll) ∧
-    (isLcas s'.rt = true → s'.cfg.drv = .poll)
+    (isLcas s'.rt = true → s'.cfg.drv = .poll) ∧
+    (s'.cq = true → s'.arm = .live)
 
 theorem G4_of_inv {s : State} (h : Inv s) : G4 s :=
-  ⟨h.kq, h.armW, h.armS, h.armXW, h.armXS, h.sleepFlag, h.sig, h.xsig, h.pn, h.iourPc, h.pnotPoll, h.casPoll, h.lcasPoll⟩
+  ⟨h.kq, h.armW, h.armS, h.armXW, h.armXS, h.sleepFlag, h.sig, h.xsig, h.pn, h.iourPc, h.pnotPoll, h.casPoll, h.lcasPoll, h.cqLive⟩
 
 set_option maxRecDepth 4000 in
 set_option maxHeartbeats 4000000 in
@@ -41,16 +42,17 @@ theorem g4_rt (s s' : State) (e : RtEv) (hfa : s.cfg.flushArms = true) (h : Inv 
   have h11 := h.pnotPoll
   have h12 := h.casPoll
   have h13 := h.lcasPoll
+  have h14 := h.cqLive
   have hf := h.flagLe
   have hx := h.extOnly
   have hwn := wake_nbit hf
   have hrs := reset_snd hf
   unfold G4
   rt_step hs
-  all_goals (refine ⟨?_, ?_, ?_, ?_, ?_, ?_, ?_, ?_, ?_, ?_, ?_, ?_, ?_⟩)
-  all_goals (try (first | exact h1 | exact h2 | exact h3 | exact h4 | exact h5 | exact h6 | exact h7 | exact h8 | exact h9 | exact h10 | exact h11 | exact h12 | exact h13))
+  all_goals (refine ⟨?_, ?_, ?_, ?_, ?_, ?_, ?_, ?_, ?_, ?_, ?_, ?_, ?_, ?_⟩)
+  all_goals (try (first | exact h1 | exact h2 | exact h3 | exact h4 | exact h5 | exact h6 | exact h7 | exact h8 | exact h9 | exact h10 | exact h11 | exact h12 | exact h13 | exact h14))
   all_goals (try (intro hd _; simp only [submits, hd]; cases ha : s.arm <;> simp_all; done))
-  all_goals (try (simp only [cnt, phase, retPhase, backPhase, reset_fst, set_eq, extPc, isLwrite, isLcas, fdReadable, posts, submits, armAfter] at *; grind [nbit]))
+  all_goals (try (simp only [cnt, phase, retPhase, backPhase, reset_fst, set_eq, extPc, isLwrite, isLcas, fdReadable, posts, submits, armPushes] at *; grind [nbit]))
 
 theorem cntExcept_mono (n : Nat) (f : Nat → Wk) (p q : Wk → Bool) (w : Nat)
     (hpq : ∀ k, p k = true → q k = true) : cntExcept n f p w ≤ cntExcept n f q w := by
@@ -107,6 +109,7 @@ theorem g4_w (s s' : State) (w : Nat) (hw : w < s.cfg.nw) (hfa : s.cfg.flushArms
   have h11 := h.pnotPoll
   have h12 := h.casPoll
   have h13 := h.lcasPoll
+  have h14 := h.cqLive
   have h12w := h.casPoll w
   have hf := h.flagLe
   have hx := h.extOnly
@@ -119,8 +122,8 @@ theorem g4_w (s s' : State) (w : Nat) (hw : w < s.cfg.nw) (hfa : s.cfg.flushArms
   have hxsl := @xsleep_pc s.cfg.loop s.rt
   unfold G4
   w_step hs
-  all_goals (refine ⟨?_, ?_, ?_, ?_, ?_, ?_, ?_, ?_, ?_, ?_, ?_, ?_, ?_⟩)
-  all_goals (try (first | exact h1 | exact h2 | exact h3 | exact h4 | exact h5 | exact h6 | exact h10 | exact h11 | exact h12 | exact h13))
+  all_goals (refine ⟨?_, ?_, ?_, ?_, ?_, ?_, ?_, ?_, ?_, ?_, ?_, ?_, ?_, ?_⟩)
+  all_goals (try (first | exact h1 | exact h2 | exact h3 | exact h4 | exact h5 | exact h6 | exact h10 | exact h11 | exact h12 | exact h13 | exact h14))
   all_goals (try (simp only [cnt, cntUpTo_split _ _ _ _ hw, cntExcept_upd, upd_same, upd, inflightP, writeP, fdReadable, posts] at *; grind [nbit, isLwrite]))
 
 end Compio.Wake
